@@ -202,7 +202,7 @@ def known_c08(o, ctx, k):
     return b"content-length" in w and b"transfer-encoding" in w
 
 
-register("C08", lean=["Khttp.Props.C08", "Khttp.Props.RoundTrip"], run=run, known_check=known_c08,
+register("C08", lean=["Khttp.Props.C08", "Khttp.Props.RoundTrip", "Khttp.Props.C08Status"], run=run, known_check=known_c08,
          rule="PRINT cases: 1500 (quick) / 40000 (thorough) random messages over the four entry points + write_request x statuses 100-999 x standard/custom/empty reasons x 0-4 user fields x "
               "{nothing declared, chunked (set or added), content-length =, <, > body length, 0} x body lengths {0,1,2,5,100,2047,2048,2049,8191,8192,8193,9000 (+4096,16384,131071..131073,262145 thorough)} "
               "x reader piece schedules x short plain writes; plus EVERY accepted count 0..head+body of the first vectored write for 2-3 body sizes. distinct_nontrivial = distinct cases with a large body, a piece schedule or a partial first write.",
